@@ -2,7 +2,12 @@
    database functions against what sdf.ThreadLookup / ToMillimetre / Screw3D / ISOThread
    returned in the run that wrote the cases file. *)
 From Coq Require Import List ZArith NArith QArith Floats Bool String.
-From Sdfx Require Import Num.Ops Num.FInst Num.QInst Geo.Vec Sdf.Screw Generated.Threads Sdf.ThreadDB.
+From Sdfx Require Import Num.Ops.
+From Sdfx Require Import Num.FInst.
+From Sdfx Require Import Num.QInst.
+From Sdfx Require Import Geo.Vec.
+From Sdfx Require Import Sdf.Screw.
+From Sdfx Require Import Generated.Threads.
 Import ListNotations.
 
 Definition fv2 (x y : float) : V2 FOps := mkV2 x y.
@@ -10,6 +15,7 @@ Definition fv3 (x y z : float) : V3 FOps := mkV3 x y z.
 
 (* float64(c) of an exact constant c = n/d with n, d < 2^53: one correctly rounded division *)
 Definition q2f (q : Q) : float := @cst FOps (Qnum q) (Zpos (Qden q)).
+Definition q2q (q : Q) : Q := @cst QOps (Qnum q) (Zpos (Qden q)).
 Definition q_small (q : Q) : bool := (Z.abs (Qnum q) <? 2 ^ 53)%Z && (Zpos (Qden q) <? 2 ^ 53)%Z.
 
 (* the row the Go map holds for a key: the LAST call with that name *)
